@@ -487,11 +487,11 @@ var panicReasons = []panicReason{
 	{"(*mpc/bls.TBLS).Sign", "\"invoke SetShareData", "unreachable from the orchestrator: prepareSigning returns SetShareData's error before Sign is started (C11.O1); SetShareData always sets sk"},
 	{"(*mpc/bls.TBLS).ensureInitOrPanic", "\"Init() must be called", "unreachable from the orchestrator: Init dominates the start of KeyGen (C01.O2)"},
 	{"(*mpc/bls.TBLS).flattenPublicKeys", "\"programming error", "unreachable: the reveal wait succeeded with n keys (C05.O1, C05.N1) keyed by session participants"},
-	{"(*mpc/bls.TBLS).assembleThresholdPublicKey$1", "\"programming error", "unreachable: n keys present (C05.O1/N1) and each was parsed successfully before being stored (OnMsg)"},
+	{"(*mpc/bls.TBLS).assembleThresholdPublicKey$1", "\"programming error", "unreachable: n keys present (C05.O1/N1) and each was parsed successfully before being stored (decided by C10.R2)"},
 	{"(*mpc/bls.TBLS).validateCommitments", "\"programming error", "unreachable: the commitment wait succeeded with n−1 commitments of the n−1 other participants (C05.O1/N1, C02.G3)"},
 	{"mpc/bls.lagrangeCoefficient", "\"empty lagrange", "precondition t ≥ 2 (the property's quantifier)"},
 	{"(*mpc/ps.TPS).flattenPublicKeys", "\"programming error", "unreachable: the reveal wait succeeded with n keys (C05.O1, C05.N1)"},
-	{"(*mpc/ps.TPS).assembleThresholdPublicKey$1", "\"programming error", "unreachable: n keys present and each parsed before being stored"},
+	{"(*mpc/ps.TPS).assembleThresholdPublicKey$1", "\"programming error", "unreachable: n keys present and each parsed before being stored (decided by C10.R2)"},
 	{"(*mpc/ps.TPS).validateCommitments", "\"programming error", "unreachable: n−1 commitments of the other participants are held (C05.O1/N1)"},
 	{"mpc/ps.lagrangeCoefficient", "\"empty lagrange", "precondition t ≥ 2 (the property's quantifier)"},
 	{"mpc/ps.marshalShare", "(error)", "asn1.Marshal of a struct of byte slices cannot fail"},
